@@ -134,7 +134,7 @@ Definition in_userinfo_set (b : N) : bool :=
   in_controls b || memN b url_fragment_set_extra || memN b url_path_set_extra || memN b url_userinfo_set_extra.
 Definition hex_upper (d : N) : N := if N.ltb d 10 then 48 + d else 55 + d.
 Definition pct_encode_byte (b : N) : str :=
-  if N.leb 128 b || in_userinfo_set b then [PERCENT; hex_upper (b / 16); hex_upper (b mod 16)] else [b].
+  if N.leb 128 b || in_userinfo_set b then [PERCENT; hex_upper ((b / 16) mod 16); hex_upper (b mod 16)] else [b].
 Definition pct_encode_userinfo (s : str) : str := flat_map pct_encode_byte s.
 
 (* first loop of parse_userinfo: position (in characters) of the last '@' of the authority and
